@@ -196,7 +196,7 @@ def mkState (src : String) (data : List UInt8) : St :=
   let k := (sdrop src 1).toNat!
   if c == 's' then initSt .str data
   else if c == 'b' then initSt .slice data
-  else if c == 'x' || c == 'X' then initSt .io (data.take k) true
+  else if c == 'x' || c == 'X' || c == 'w' then initSt .io (data.take k) true
   else initSt .io data
 
 def resItem (r : Res Value) : Item :=
@@ -216,6 +216,9 @@ def resItemD (r : Res Datum) : Item :=
 def execParse (t : List String) : String :=
   match t with
   | _ :: fast :: src :: ro :: api :: rest =>
+    -- a stream that fails once and then recovers (`y<k>`) is outside the model (its reader is either
+    -- fault-free or fails for good); those operations are evaluated by the direct oracle only
+    if c0 src == 'y' then "oracle-only" else
     let data := unhex (rest.headD "")
     let cfg := mkCfg ro (fast == "1")
     let s := mkState src data
@@ -259,6 +262,10 @@ structure Sched where
   failAt : Option Nat := none
   zeroAt : Option Nat := none
   intr : Option Nat := none
+  /-- transient faults: one `Err` (resp. one `Ok(0)`) at the first call at or beyond (resp. at) this
+      offset, normal behaviour afterwards — a sink that refuses one write and accepts later ones -/
+  failOnce : Option Nat := none
+  zeroOnce : Option Nat := none
 
 def schedHash (seed off : Nat) : Nat :=
   ((seed * 6364136223846793005 + (off + 1) * 1442695040888963407) % 18446744073709551616) / 8589934592
@@ -272,16 +279,22 @@ def parseSched (s : String) : Sched :=
     | 'f' => { sc with failAt := some n }
     | 'z' => { sc with zeroAt := some n }
     | 'i' => { sc with intr := some n }
+    | 'F' => { sc with failOnce := some n }
+    | 'Z' => { sc with zeroOnce := some n }
     | _ => sc) {}
 
 /-- One `write(buf)` call: response and new state (delivered, lastIntr). -/
-def sinkWrite (sc : Sched) (got : List UInt8) (lastIntr : Option Nat) (buf : List UInt8) :
-    Print.Resp × List UInt8 × Option Nat :=
+def sinkWrite (sc : Sched) (got : List UInt8) (st : Option Nat × Bool) (buf : List UInt8) :
+    Print.Resp × List UInt8 × (Option Nat × Bool) :=
+  let lastIntr := st
   let off := got.length
   let intrNow := match sc.intr with
-    | some s => schedHash s off % 3 == 0 && lastIntr != some off
+    | some s => schedHash s off % 3 == 0 && st.1 != some off
     | none => false
-  if intrNow then (.interrupted, got, some off)
+  if intrNow then (.interrupted, got, (some off, st.2))
+  else if !st.2 && (match sc.failOnce with | some n => decide (off ≥ n) | none => false) then
+    (.fail, got, (st.1, true))
+  else if !st.2 && sc.zeroOnce == some off then (.accept 0, got, (st.1, true))
   else if (match sc.failAt with | some n => decide (off ≥ n) | none => false) then (.fail, got, lastIntr)
   else if sc.zeroAt == some off then (.accept 0, got, lastIntr)
   else
@@ -293,11 +306,12 @@ def sinkWrite (sc : Sched) (got : List UInt8) (lastIntr : Option Nat) (buf : Lis
       | some n => if n > off then min k (n - off) else k
       | none => k
     let k := lim sc.zeroAt (lim sc.failAt k1)
+    let k := if st.2 then k else lim sc.zeroOnce (lim sc.failOnce k)
     (.accept k, got ++ buf.take k, lastIntr)
 
 /-- std `write_all` against the offset sink. -/
-def sinkWriteAll (sc : Sched) : Nat → List UInt8 → Option Nat → List UInt8 →
-    Print.IoRes × List UInt8 × Option Nat
+def sinkWriteAll (sc : Sched) : Nat → List UInt8 → (Option Nat × Bool) → List UInt8 →
+    Print.IoRes × List UInt8 × (Option Nat × Bool)
   | 0, got, li, _ => (.err, got, li)
   | _, got, li, [] => (.ok, got, li)
   | f + 1, got, li, buf =>
@@ -307,7 +321,7 @@ def sinkWriteAll (sc : Sched) : Nat → List UInt8 → Option Nat → List UInt8
     | (.interrupted, g, l) => sinkWriteAll sc f g l buf
     | (.fail, g, l) => (.err, g, l)
 
-def sinkRun (sc : Sched) : List Print.Emit → List UInt8 → Option Nat → Print.IoRes × List UInt8
+def sinkRun (sc : Sched) : List Print.Emit → List UInt8 → (Option Nat × Bool) → Print.IoRes × List UInt8
   | [], got, _ => (.ok, got)
   | .all bs :: es, got, li =>
     match sinkWriteAll sc (2 * bs.length + 2) got li bs with
@@ -329,7 +343,7 @@ def execSink (t : List String) : String :=
   | _ :: p :: sched :: rest =>
     let (v, _, tab) := decValue rest []
     let es := emitsOf p tab v
-    match sinkRun (parseSched sched) es [] none with
+    match sinkRun (parseSched sched) es [] (none, false) with
     | (.ok, out) => s!"ok {hex out}"
     | (.err, out) => s!"err {hex out}"
   | _ => "bad-op"
@@ -460,7 +474,10 @@ def execPp (t : List String) : String :=
       | [b, txt] => some (hexNat b, unhex txt)
       | _ => none
     let cfg := mkCfg ro (fast == "1")
-    let po := printOpts (pof ro)
+    -- `ppe`: byte vectors as Emacs Lisp unibyte strings (the other printer option set that corresponds to
+    -- a parser reading Emacs Lisp strings), everything else as `pof`
+    let po0 := printOpts (pof ro)
+    let po := if t.head? == some "ppe" then { po0 with bytes := .elisp } else po0
     match fromTrait cfg (initSt .slice (unhex h)) with
     | .ok v _ =>
       let t1 := Print.text po (ryuOf tab) v
@@ -555,6 +572,71 @@ def execTriv (t : List String) : String :=
     s!"{run a} || {run (rest.headD "")}"
   | _ => "bad-op"
 
+/-- `opts R <start> <setter>*` / `opts P <start> <setter>*`: a chain of builder calls on an option value;
+    the result is printed as the digit string of the resulting option set (twice for the parser: what
+    the getters return and what the reader does on probe tokens are the same record in the model). -/
+def roptsDigits (o : Parse.Options) : String :=
+  let b (x : Bool) : String := if x then "1" else "0"
+  b o.kwPrefix ++ b o.kwPostfix ++ b o.kwOctothorpe ++
+  (match o.nil with | .emptyList => "0" | .default => "1" | .special => "2") ++
+  (match o.t with | .true_ => "0" | .default => "1") ++
+  (match o.brackets with | .list => "0" | .vector => "1") ++
+  (match o.string with | .r6rs => "0" | .elisp => "1") ++
+  (match o.char with | .r6rs => "0" | .elisp => "1") ++ b o.racket ++ b o.leadingDigit
+
+def poptsDigits (o : Print.Options) : String :=
+  (match o.keyword with | .colonPrefix => "0" | .colonPostfix => "1" | .octothorpe => "2") ++
+  -- observed through the printed text: with booleans as symbols, nil printed as a symbol and nil printed
+  -- as false are the same text (`nil`): one class `S`
+  (match o.nil, o.bool with
+   | .symbol, .symbol => "S" | .false_, .symbol => "S"
+   | .symbol, _ => "0" | .token, _ => "1" | .emptyList, _ => "2" | .false_, _ => "3") ++
+  (match o.bool with | .token => "0" | .symbol => "1") ++
+  (match o.vector with | .octothorpe => "0" | .brackets => "1") ++
+  (match o.bytes with | .r6rs => "0" | .r7rs => "1" | .elisp => "2") ++
+  (match o.string with | .r6rs => "0" | .elisp => "1") ++
+  (match o.char with | .r6rs => "0" | .elisp => "1")
+
+def kwOf (n : Nat) : KeywordSyntax := match n with | 0 => .colonPrefix | 1 => .colonPostfix | _ => .octothorpe
+
+def rSetter (tok : String) : Option Parse.Setter :=
+  match tok.toList with
+  | 'k' :: d => some (.addKeyword (kwOf (String.ofList d).toNat!))
+  | 'K' :: d => some (.setKeywords ((String.ofList d).toList.map fun c => kwOf (c.toNat - 48)))
+  | ['n', d] => some (.nil (match d with | '0' => .emptyList | '1' => .default | _ => .special))
+  | ['t', d] => some (.t (if d == '0' then .true_ else .default))
+  | ['b', d] => some (.brackets (if d == '0' then .list else .vector))
+  | ['s', d] => some (.string (if d == '0' then .r6rs else .elisp))
+  | ['c', d] => some (.char (if d == '0' then .r6rs else .elisp))
+  | ['r', d] => some (.racket (d == '1'))
+  | ['d', d] => some (.leadingDigit (d == '1'))
+  | _ => none
+
+def pSetter (tok : String) : Option Print.Setter :=
+  match tok.toList with
+  | ['k', d] => some (.keyword (kwOf (d.toNat - 48)))
+  | ['n', d] => some (.nil (match d with | '0' => .symbol | '1' => .token | '2' => .emptyList | _ => .false_))
+  | ['o', d] => some (.bool (if d == '0' then .token else .symbol))
+  | ['v', d] => some (.vector (if d == '0' then .octothorpe else .brackets))
+  | ['y', d] => some (.bytes (match d with | '0' => .r6rs | '1' => .r7rs | _ => .elisp))
+  | ['s', d] => some (.string (if d == '0' then .r6rs else .elisp))
+  | ['c', d] => some (.char (if d == '0' then .r6rs else .elisp))
+  | _ => none
+
+def execOpts (t : List String) : String :=
+  match t with
+  | _ :: "R" :: start :: ops =>
+    let s0 := match start with | "new" => Parse.Options.new | "elisp" => Parse.Options.elisp | _ => Parse.Options.default
+    match ops.mapM rSetter with
+    | some sts => let o := Parse.Options.build s0 sts; s!"R {roptsDigits o} {roptsDigits o}"
+    | none => "bad-op"
+  | _ :: "P" :: start :: ops =>
+    let s0 := match start with | "elisp" => Print.Options.elisp | _ => Print.Options.default
+    match ops.mapM pSetter with
+    | some sts => s!"P {poptsDigits (Print.Options.build s0 sts)}"
+    | none => "bad-op"
+  | _ => "bad-op"
+
 def exec (line : String) : String :=
   let t := (line.trimAscii.toString.splitOn " ").filter (· != "")
   match t.head? with
@@ -568,10 +650,13 @@ def exec (line : String) : String :=
   | some "rt" => execRt t
   | some "prefix" => execPrefix t
   | some "pp" => execPp t
+  | some "ppe" => execPp t
   | some "triv" => execTriv t
   | some "ser" => execSer t
   | some "macro" => execMacro t
   | some "de" => execDe t
+  | some "opts" => execOpts t
+  | some "serx" => "oracle-only"
   | some op => "unknown-op " ++ op
   | none => ""
 
